@@ -179,6 +179,50 @@ pub fn run(opts: &Opts) -> Report {
             }
         }
     }
+    // ---- deadlock during initialisation: SimInit::init fails and tears everything down itself
+    if want("deadlock") {
+        // A model whose `init` saturates its own (or a peer's) mailbox never
+        // waits on its mailbox before the stall: its task is idle at tear-down
+        // with a waker held only by its own suspended send.
+        let kinds = gen::KINDS as usize;
+        let empty = || (0..kinds).map(|_| Vec::new()).collect::<Vec<_>>();
+        let mut case = 0u64;
+        for cap in [1usize, 2, 3] {
+            for peers in [0usize, 1, 2] {
+                for threads in [1usize, 2, 4] {
+                    case += 1;
+                    if !opts.mine(case) || (cfg!(miri) && threads == 4) {
+                        continue;
+                    }
+                    let mut nodes = Vec::new();
+                    let mut a = bench::NodeSpec { name: "selfish".into(), cap, added: true, key_slots: 1, react: empty(), qreact: empty(), ..Default::default() };
+                    // Port 0 -> itself; the init sends cap + 2 events to itself.
+                    a.outs.push(vec![bench::Conn { target: bench::Target::Node(0), map: bench::MapKind::Plain }]);
+                    a.init = (0..cap + 2).map(|_| bench::Action::Send { port: 0, kind: 1 }).collect();
+                    nodes.push(a);
+                    for p in 0..peers {
+                        let mut b = bench::NodeSpec { name: format!("peer{}", p), cap: 1, added: true, key_slots: 1, react: empty(), qreact: empty(), ..Default::default() };
+                        b.outs.push(vec![bench::Conn { target: bench::Target::Node(0), map: bench::MapKind::Plain }]);
+                        if p % 2 == 0 {
+                            b.init = vec![bench::Action::Send { port: 0, kind: 1 }];
+                        }
+                        nodes.push(b);
+                    }
+                    let spec = Arc::new(Spec { seed: h2(opts.seed, 0xC19_1D00 + case), nodes, cmds: vec![bench::Cmd::Step], ttl: 3, ..Default::default() });
+                    let ex = if threads == 1 { Exec::st() } else { Exec::mt(threads) };
+                    let replay = opts.replay_args("deadlock", 1_000_000 + case);
+                    let ro = RunOpts { ctx: ("C19/hang/drop-or-call-never-returns".into(), replay.clone()), read_sinks: false, keep_events: true };
+                    let tr = bench::run(&spec, &ex, &ro);
+                    let (mut v, seen) = judge(&tr, true);
+                    if !tr.init.res.starts_with("deadlock") {
+                        v.push(("C19/harness-init-deadlock-not-reached".into(), format!("init returned {:?}", tr.init.res)));
+                    }
+                    rep.count("drops_after_a_deadlock_during_initialisation", 1);
+                    record(&mut rep, "deadlock", &ex.label, &format!("SimInit::init deadlocked (self-saturating init, capacity {}, {} peers) and tore the simulation down", cap, peers), &spec, v, &seen, &replay, h2(case, 0x1D), true);
+                }
+            }
+        }
+    }
     // ---- failed: drop right after every kind of fatal error (and after further calls)
     if want("faults") {
         let trigs = [Trigger::ProcessEvent, Trigger::Step, Trigger::StepUntil, Trigger::ProcessSource];
